@@ -94,6 +94,12 @@ mod cpu {
             }
             verif::boot();
             verif::set_cpu_mask(*mask);
+            st.hit(match mi {
+                0 => "fault.reboot_on_cpu_without_simd",
+                1 => "fault.reboot_on_cpu_sse2_only",
+                2 => "fault.reboot_on_cpu_sse4.1_ssse3_no_avx2",
+                _ => "fault.reboot_on_cpu_avx2",
+            });
             let before = INITS.load(Ordering::Relaxed);
             let mut tr = Vec::with_capacity(h.ops.len());
             for op in &h.ops {
